@@ -2,7 +2,8 @@
  *
  * job lines:
  *   mode init|adv
- *   pin type=<n> digest=<hex of the ASCII digest string> len=<n>      (adv mode only; any subset)
+ *   pin type=<n> digest=<hex of the ASCII digest string> len=<n> [late=1]     (adv mode only; any subset; late=1: the pins are
+ *                              set after zck_read_lead and before zck_read_header)
  *   base <blob>
  *   subst <lo> <hi>          one case per position: all 255 substitute values are tried in-process
  *   edit <pos> <ndel> <ins>  one case: delete ndel bytes at pos, insert ins
@@ -20,7 +21,7 @@ typedef struct { int kind; long a, b; blob ins; } ocase;
 typedef struct {
     blob base;
     int adv;
-    int pin_type; blob pin_digest; long pin_len; int have_pin_type, have_pin_digest, have_pin_len;
+    int pin_type; blob pin_digest; long pin_len; int have_pin_type, have_pin_digest, have_pin_len, pin_late;
     int allocfail;
     ocase *cases; int n;
 } octx;
@@ -36,12 +37,16 @@ static int try_open(int fd, octx *c, char *msg, size_t msgn) {
         ok = zck_init_read(zck, fd);
     } else {
         ok = zck_init_adv_read(zck, fd);
+        /* late=1: the caller sets its pins between reading the lead and reading the header */
+        int lead_ok = 1;
+        if(ok && c->pin_late) lead_ok = zck_read_lead(zck);
+        if(ok && !lead_ok) { env_alloc_on = 0; if(msg) snprintf(msg, msgn, "%s", zck_get_error(zck)); zck_free(&zck); return 0; }
         if(ok && c->have_pin_type) ok = zck_set_ioption(zck, ZCK_VAL_HEADER_HASH_TYPE, c->pin_type);
         if(ok && c->have_pin_digest)
             ok = zck_set_soption(zck, ZCK_VAL_HEADER_DIGEST, (char *)c->pin_digest.p, c->pin_digest.n);
         if(ok && c->have_pin_len) ok = zck_set_ioption(zck, ZCK_VAL_HEADER_LENGTH, c->pin_len);
         if(!ok) die("pins refused on base configuration: %s", zck_get_error(zck));
-        ok = zck_read_lead(zck) && zck_read_header(zck);
+        ok = c->pin_late ? zck_read_header(zck) : (zck_read_lead(zck) && zck_read_header(zck));
     }
     env_alloc_on = 0;
     if(msg) snprintf(msg, msgn, "%s", zck_get_error(zck));
@@ -130,6 +135,7 @@ int cmd_openenum(FILE *job, FILE *out) {
             if((v = kv(t, n, "type", NULL))) { c.pin_type = atoi(v); c.have_pin_type = 1; }
             if((v = kv(t, n, "digest", NULL))) { c.pin_digest = blob_arg(v); c.have_pin_digest = 1; }
             if((v = kv(t, n, "len", NULL))) { c.pin_len = atol(v); c.have_pin_len = 1; }
+            c.pin_late = (int)kvi(t, n, "late", 0);
         } else {
             if(c.n + 1 >= cap) { cap = cap ? cap * 2 : 1024; c.cases = realloc(c.cases, cap * sizeof *c.cases); }
             if(!strcmp(t[0], "subst")) {
